@@ -406,6 +406,7 @@ func checkC12(r *Report) {
 	tagListRule(r, p, "C12.f/TAG-LIST")
 	nGE := guardBeforeEraseRule(r, p, "C12.i/GUARD-BEFORE-ERASE")
 	r.floor("C12.i/GUARD-BEFORE-ERASE", "guards in package semver that refuse a version because of its prerelease tags", nGE, 1)
+	syntheticBoundRule(r, p, "C12.j/SYNTHETIC-BOUND-INERT")
 	sortWholeRule(r, p, "C12.g/SORT-WHOLE")
 	matchSortsRule(r, p, "C12.h/MATCH-SORTS")
 	var matchFns []*ssa.Function
